@@ -165,6 +165,8 @@ Inductive pop_op :=
 | Round (draws : list (nat * T))       (* one Mutations.mutation call                           *)
 | MutOne (i k : nat) (u : T)           (* rl_hyperparam_mutation on individual i only            *)
 | Clone (src dst : nat)                (* population[dst] = population[src].clone()              *)
+| RoundKeepElite (draws : list (nat * T))   (* Mutations(mutate_elite=False).mutation: member 0 gets no_mutation
+                                               (label "None", nothing else), members 1.. are mutated with their draws *)
 | LoadInto (src dst : nat)             (* population[src].save_checkpoint(f); population[dst].load_checkpoint(f) *)
 | LoadNew (src dst : nat)              (* population[src].save_checkpoint(f); population[dst] = Algo.load(f)      *)
 | Learn (i : nat)                      (* agent.learn(batch): touches no hyperparameter, optimizer lr or label *)
@@ -202,6 +204,11 @@ Definition pop_step (pop : list agent) (o : pop_op) : list agent :=
   | Clone s d => match nth_error pop s with
                  | Some a => upd_nth pop d a        (* deep copy: same values, own registry *)
                  | None => pop end
+  | RoundKeepElite draws => match pop with
+                            | [] => []
+                            | a :: rest => {| a_vals := a_vals a; a_hps := a_hps a; a_opts := a_opts a; a_mut := None |}
+                                           :: mutation_round rest draws
+                            end
   | LoadInto s d => match nth_error pop s, nth_error pop d with
                     | Some a, Some b => upd_nth pop d (loaded_into a b)
                     | _, _ => pop end
@@ -276,7 +283,7 @@ Arguments Build_param {T}.
 Arguments Build_hpent {T}.
 Arguments Build_optim {T}.
 Arguments Build_agent {T}.
-Arguments Round {T}. Arguments MutOne {T}. Arguments Clone {T}. Arguments OtherMut {T}. Arguments Learn {T}. Arguments LoadInto {T}. Arguments LoadNew {T}.
+Arguments Round {T}. Arguments MutOne {T}. Arguments Clone {T}. Arguments OtherMut {T}. Arguments Learn {T}. Arguments LoadInto {T}. Arguments LoadNew {T}. Arguments RoundKeepElite {T}.
 Arguments p_min {T}. Arguments p_max {T}. Arguments p_shrink {T}. Arguments p_grow {T}. Arguments p_int {T}.
 Arguments hp_name {T}. Arguments hp_par {T}. Arguments hp_cache {T}.
 Arguments o_cfg_lr {T}. Arguments o_lr_name {T}. Arguments o_wlr {T}. Arguments o_groups {T}.
